@@ -5,6 +5,7 @@ import (
 	"fmt"
 	"io"
 	"os"
+	"path/filepath"
 	"strings"
 
 	"github.com/Syuparn/pangaea/evaluator"
@@ -17,6 +18,15 @@ func doRunSource(rq *Req) (resp *Resp) {
 	defaults(rq)
 	resp = &Resp{ID: rq.ID, Events: []string{}}
 	var out bytes.Buffer
+	dir := ""
+	if len(rq.Files) > 0 {
+		d, err := os.MkdirTemp("", "pvtree")
+		if err != nil {
+			return &Resp{ID: rq.ID, End: "harness-error:" + err.Error()}
+		}
+		dir = d
+		defer os.RemoveAll(dir)
+	}
 	oldErr := os.Stderr
 	r, w, _ := os.Pipe()
 	os.Stderr = w
@@ -33,12 +43,25 @@ func doRunSource(rq *Req) (resp *Resp) {
 			}
 		}()
 		evaluator.VerifSetFuel(rq.Fuel, rq.Depth)
-		code := runscript.RunSource(rq.Src, "<verif>", strings.NewReader(rq.Stdin), &out)
+		src, name := rq.Src, "<verif>"
+		if len(rq.Files) > 0 {
+			for rel, text := range rq.Files {
+				os.MkdirAll(filepath.Dir(filepath.Join(dir, rel)), 0o755)
+				os.WriteFile(filepath.Join(dir, rel), []byte(text), 0o644)
+			}
+			name = filepath.Join(dir, rq.Main)
+			src = rq.Files[rq.Main]
+		}
+		code := runscript.RunSource(src, name, strings.NewReader(rq.Stdin), &out)
 		resp.End = fmt.Sprintf("exit:%d", code)
 	}()
 	w.Close()
 	os.Stderr = oldErr
 	stderr := <-errCh
-	resp.Events = []string{"io:" + out.String(), "stderr:" + stderr}
+	o, e := out.String(), stderr
+	if dir != "" {
+		o, e = strings.ReplaceAll(o, dir, "<dir>"), strings.ReplaceAll(e, dir, "<dir>")
+	}
+	resp.Events = []string{"io:" + o, "stderr:" + e}
 	return resp
 }
